@@ -1,8 +1,9 @@
 (* C23 — types shared by the generated source facts (Gen/SrcFront.v) and the front-end model. *)
 From TxV Require Import Core.Base.
 
-(* Python exception types that are NOT TextXError and that the modelled code can raise. *)
-Inductive crash := KType | KAttribute | KRecursion | KUnicode | KAssertion | KKey | KRe | KNoMatch.
+(* A Python exception type as far as `except` can tell: its class name and the class names of its MRO
+   (itself included).  Oracles and inputs that raise answer with one of these. *)
+Record exc := { x_name : list N; x_mro : list (list N) }.
 
 (* TextXError classes. *)
 Inductive txclass := CSyntax | CSemantic | CPlain | CRegistration.
@@ -10,13 +11,67 @@ Inductive txclass := CSyntax | CSemantic | CPlain | CRegistration.
 (* Which check fired (compared with the implementation through its message). *)
 Inductive why :=
   WParse | WParam | WWsParam | WSplit | WRegex | WEscape | WOptMods | WAsgMods
-| WMultiBool | WPrimRef | WBoolRep | WBoolMany | WRuleRef | WClsRef | WRegistration.
+| WMultiBool | WPrimRef | WBoolRep | WBoolMany | WRuleRef | WClsRef | WRegistration
+| WUserRedef | WUserUnused.
 
-Inductive outcome := Ok | TxErr (c : txclass) (w : why) | Crash (k : crash).
+(* Crash n: an exception of class n that is not a TextXError leaves metamodel_from_str. *)
+Inductive outcome := Ok | TxErr (c : txclass) (w : why) | Crash (name : list N).
 
-(* A try/except as the translator sees it: does it catch the exception in question, is the
-   handler body free of operations that raise on their own, and which class does it raise. *)
-Record handler := { h_catches : bool; h_body_safe : bool; h_raises : txclass }.
+Definition n_TypeError : list N := [84;121;112;101;69;114;114;111;114]%N.
+Definition n_AttributeError : list N := [65;116;116;114;105;98;117;116;101;69;114;114;111;114]%N.
+Definition n_RecursionError : list N := [82;101;99;117;114;115;105;111;110;69;114;114;111;114]%N.
+Definition n_AssertionError : list N := [65;115;115;101;114;116;105;111;110;69;114;114;111;114]%N.
+Definition n_KeyError : list N := [75;101;121;69;114;114;111;114]%N.
+Definition n_IndexError : list N := [73;110;100;101;120;69;114;114;111;114]%N.
+Definition n_UnicodeDecodeError : list N := [85;110;105;99;111;100;101;68;101;99;111;100;101;69;114;114;111;114]%N.
+Definition n_Exception : list N := [69;120;99;101;112;116;105;111;110]%N.
+Definition n_BaseException : list N := [66;97;115;101;69;120;99;101;112;116;105;111;110]%N.
+Definition n_LookupError : list N := [76;111;111;107;117;112;69;114;114;111;114]%N.
+Definition n_NoMatch : list N := [78;111;77;97;116;99;104]%N.
+Definition n_TextXError : list N := [84;101;120;116;88;69;114;114;111;114]%N.
+Definition n_TextXSyntaxError : list N := [84;101;120;116;88;83;121;110;116;97;120;69;114;114;111;114]%N.
+Definition n_TextXSemanticError : list N := [84;101;120;116;88;83;101;109;97;110;116;105;99;69;114;114;111;114]%N.
+Definition n_TextXRegistrationError : list N :=
+  [84;101;120;116;88;82;101;103;105;115;116;114;97;116;105;111;110;69;114;114;111;114]%N.
+
+(* the KeyError that TextXMetaModel.__getitem__ raises itself *)
+Definition exc_KeyError : exc :=
+  {| x_name := n_KeyError; x_mro := [n_KeyError; n_LookupError; n_Exception; n_BaseException] |}.
+
+(* One `except T1, T2 ... :` clause as the translator sees it: the class names it catches and what its body
+   does.  ASwallow: the body neither raises nor re-raises (execution continues after the try).
+   ARaise body c: the body raises TextX class c — unless `body = Some n`: an operation of the body
+   raises n first (e.g. subscripting a Terminal). *)
+Inductive action := ASwallow | ARaise (body : option (list N)) (c : txclass).
+Record clause := { cl_types : list (list N); cl_action : action }.
+
+Definition catches (cl : clause) (e : exc) : bool := existsb (fun t => mem_str t (x_mro e)) (cl_types cl).
+
+Inductive dres := DSwallowed | DOut (o : outcome).
+
+(* what a try statement with these except clauses does with exception e raised in its body *)
+Fixpoint dispatch (cls : list clause) (e : exc) (w : why) : dres :=
+  match cls with
+  | [] => DOut (Crash (x_name e))
+  | cl :: rest =>
+      if catches cl e then
+        match cl_action cl with
+        | ASwallow => DSwallowed
+        | ARaise None c => DOut (TxErr c w)
+        | ARaise (Some n) _ => DOut (Crash n)
+        end
+      else dispatch rest e w
+  end.
+
+Definition action_safe (a : action) : bool :=
+  match a with ASwallow => true | ARaise None _ => true | ARaise (Some _) _ => false end.
+
+(* every exception that has class T in its MRO ends in a safe clause *)
+Fixpoint handles (cls : list clause) (T : list N) : bool :=
+  match cls with
+  | [] => false
+  | cl :: rest => action_safe (cl_action cl) && (mem_str T (cl_types cl) || handles rest T)
+  end.
 
 (* Facts about textx/lang.py and textx/metamodel.py, regenerated from the source on every run. *)
 Record cfg := {
@@ -24,41 +79,47 @@ Record cfg := {
   c_param_cls : txclass;             (* raised for any other name *)
   c_split_cls : txclass;             (* raised for split without / with empty string *)
   c_ws_guard : option txclass;       (* Some c: a non-string ws value raises c before `"\\" in value` *)
-  c_re_handler : handler;            (* visit_re_match: except around regex.compile() *)
-  c_str_handler : handler;           (* visit_str_match: except UnicodeDecodeError around decode_escapes *)
-  c_nomatch_handler : handler;       (* language_from_str: except NoMatch around parser.parse *)
-  c_keyerror_handler : handler;      (* _resolve_cls: except KeyError around metamodel[cls_name] *)
+  c_re_clauses : list clause;        (* visit_re_match: the except clauses around regex.compile() *)
+  c_str_clauses : list clause;       (* visit_str_match: ... around the slicing and decode_escapes *)
+  c_nomatch_clauses : list clause;   (* language_from_str: ... around parser.parse *)
+  c_keyerror_clauses : list clause;  (* _resolve_cls: ... around metamodel[cls_name] *)
+  c_contains_clauses : list clause;  (* TextXMetaModel.__contains__: ... around self[name] ([] = no try at all) *)
   c_ugroup_guard : bool;             (* visit_repeatable_expr: `#` on a RuleCrossRef does not read expr.nodes *)
   c_alias_guard : option txclass;    (* _resolve_rule: Some c: a rule found in its own alias chain raises c *)
   c_mmm_getitem : bool;              (* TextXMetaMetaModel defines __getitem__ *)
-  c_contains_catches : bool;         (* TextXMetaModel.__contains__ = try self[name] except KeyError *)
   c_ruletype_by_class : bool;        (* _determine_rule_type takes the class of an alias target from rule._tx_class
                                         (false: looks its rule_name up in the meta-model, outside any try) *)
   c_boolmany_check : option txclass; (* visit_textx_rule: a `?=` attribute with multiplicity many raises this *)
+  c_user_redef_cls : txclass;        (* visit_rule_name: a user class for a rule name that is defined twice *)
+  c_user_unused_cls : txclass;       (* validate_user_classes: a user class no rule uses *)
   c_base_names : list (list N)       (* classes of the __base__ namespace *)
 }.
 
-Definition handler_ok (h : handler) : bool := h_catches h && h_body_safe h.
-
 Definition is_some {A} (o : option A) : bool := match o with Some _ => true | None => false end.
 
-(* Every crash source modelled is guarded in this source. *)
+(* Every crash source modelled is guarded in this source: each handler catches the exception class its `try`
+   body is assumed to raise (see oracle_wf in Model/Front.v) and ends in a TextXError. *)
 Definition cfg_safe (c : cfg) : bool :=
-  is_some (c_ws_guard c) && handler_ok (c_re_handler c) && handler_ok (c_str_handler c)
-  && handler_ok (c_nomatch_handler c) && handler_ok (c_keyerror_handler c)
-  && c_ugroup_guard c && is_some (c_alias_guard c) && c_mmm_getitem c
-  && c_contains_catches c && c_ruletype_by_class c.
+  is_some (c_ws_guard c)
+  && handles (c_re_clauses c) n_Exception
+  && handles (c_str_clauses c) n_UnicodeDecodeError && handles (c_str_clauses c) n_IndexError
+  && handles (c_nomatch_clauses c) n_NoMatch
+  && handles (c_keyerror_clauses c) n_KeyError
+  && handles (c_contains_clauses c) n_KeyError
+  && c_ugroup_guard c && is_some (c_alias_guard c) && c_mmm_getitem c && c_ruletype_by_class c.
 
 (* The code as pinned before the C23 repairs (used by the refutation witnesses). *)
 Definition pinned_cfg : cfg := {|
   c_params := [[115;107;105;112;119;115]; [119;115]; [115;112;108;105;116]]%N;
   c_param_cls := CSyntax; c_split_cls := CPlain; c_ws_guard := None;
-  c_re_handler := {| h_catches := true; h_body_safe := false; h_raises := CSyntax |};
-  c_str_handler := {| h_catches := false; h_body_safe := true; h_raises := CSyntax |};
-  c_nomatch_handler := {| h_catches := true; h_body_safe := true; h_raises := CSyntax |};
-  c_keyerror_handler := {| h_catches := true; h_body_safe := true; h_raises := CSemantic |};
+  c_re_clauses := [{| cl_types := [n_Exception]; cl_action := ARaise (Some n_TypeError) CSyntax |}];
+  c_str_clauses := [{| cl_types := [n_IndexError]; cl_action := ASwallow |}];
+  c_nomatch_clauses := [{| cl_types := [n_NoMatch]; cl_action := ARaise None CSyntax |}];
+  c_keyerror_clauses := [{| cl_types := [n_KeyError]; cl_action := ARaise None CSemantic |}];
+  c_contains_clauses := [{| cl_types := [n_KeyError]; cl_action := ASwallow |}];
   c_ugroup_guard := false; c_alias_guard := None; c_mmm_getitem := false;
-  c_contains_catches := true; c_ruletype_by_class := false; c_boolmany_check := None;
+  c_ruletype_by_class := false; c_boolmany_check := None;
+  c_user_redef_cls := CSemantic; c_user_unused_cls := CSemantic;
   c_base_names := [[73;68]; [83;84;82;73;78;71]; [66;79;79;76]; [73;78;84]; [70;76;79;65;84];
                    [83;84;82;73;67;84;70;76;79;65;84]; [78;85;77;66;69;82]; [66;65;83;69;84;89;80;69];
                    [79;66;74;69;67;84]]%N |}.
